@@ -1,5 +1,337 @@
-"""SITE — explicit failure constructs (filled in later in the build order)."""
+"""SITE rules: every explicit failure construct reachable from an entry is in the reviewed table, and the
+structural obligation attached to its row is re-verified on every run (X1 for C05, A6 for C01)."""
+import re
+from .. import flow, site as S
+from ..facts import op_place, callee_def, AnchorMissing
+from ..common import strip_generics, PC
+from ..tables import failure_sites as T
+
+P = "preflate_rs::"
+IN_MEMORY = (r"cabac::vp8::VP8Writer<&mut std::vec::Vec<u8>>", r"cabac::vp8::VP8Reader<std::io::Cursor<&\[u8\]>>")
+
+
+def const_dead_blocks(body):
+    """Blocks unreachable once branches on compile-time constants are pruned."""
+    seen = set()
+    work = [0]
+    while work:
+        b = work.pop()
+        if b in seen:
+            continue
+        seen.add(b)
+        t = body.term(b)
+        if t["k"] == "switch":
+            v = flow.const_eval(body, t["d"])
+            if v is not None:
+                tg = [x for val, x in t["targets"] if val == v]
+                work.append(tg[0] if tg else t["otherwise"])
+                continue
+        work.extend(body.succ(b))
+    return body.normal_blocks() - seen
+
+
+# ---- obligations: each returns (ok, detail) ---------------------------------------------------------
+
+def ob_cabac_in_memory(F, parent, fn, sites):
+    insts = [F.inst(i) for i in parent if F.inst(i)["def"] == fn]
+    bad = [i["name"] for i in insts if not any(re.search(p, i["name"]) for p in IN_MEMORY)]
+    return (bool(insts) and not bad), "%d reachable instantiation(s), all over the in-memory VP8 reader/writer" % len(insts) if not bad else "instantiated with another reader/writer: %s" % bad[:2]
+
+
+def ob_vp8_ctor(F, parent, fn, sites):
+    b = F.bodies[fn]
+    bad = []
+    for s in sites:
+        t = b.term(s["bb"])
+        o = flow.origin(b, t["args"][0])
+        ok = False
+        for bb, ct in o.calls:
+            inst = ct["callee"].get("inst", "")
+            if re.search(r"^cabac::vp8::VP8Writer::<&mut std::vec::Vec<u8>>::new$|^cabac::vp8::VP8Reader::<std::io::Cursor<&\[u8\]>>::new$", inst):
+                ok = True
+        if not ok:
+            bad.append(s["where"])
+    return not bad, "unwrap applies to VP8Writer::new(&mut Vec<u8>) / VP8Reader::new(Cursor<&[u8]>)" if not bad else "unwrap on something else at %s" % bad
+
+
+def ob_checksum_dead(F, parent, fn, sites):
+    try:
+        v = F.const_int(P + "token_predictor::VERIFY")
+    except AnchorMissing:
+        return False, "const VERIFY not found"
+    live = []
+    n = 0
+    for name, b in F.bodies.items():
+        dead = None
+        for bb, t in b.calls():
+            if strip_generics(callee_def(t)) == strip_generics(fn):
+                n += 1
+                if dead is None:
+                    dead = const_dead_blocks(b)
+                if bb not in dead:
+                    live.append("%s (%s)" % (name, b.where(bb)))
+    return (v == 0 and not live and n > 0), "VERIFY=%s, %d call site(s) of checksum, live: %s" % (v, n, live[:2])
+
+
+def ob_iterate_offset(F, parent, fn, sites):
+    bad, n = [], 0
+    for name, b in F.bodies.items():
+        for bb, t in b.calls():
+            if t["callee"].get("def") == P + "hash_chain::HashChain::iterate":
+                n += 1
+                v = flow.const_eval(b, t["args"][2])
+                if v in (0, 1):
+                    continue
+                k = t["args"][2].get("k", {}) if isinstance(t["args"][2], dict) else {}
+                o = flow.origin(b, t["args"][2])
+                gen = [c for c in o.consts if c.get("generic")]
+                if gen and not (o.args or o.calls or o.exprs):
+                    # const generic parameter: look at the instantiations of the enclosing function
+                    vals = set()
+                    for i in parent:
+                        I = F.inst(i)
+                        if I["def"] == name:
+                            m = re.search(r"::<(\d+)>$", I["name"])
+                            vals.add(int(m.group(1)) if m else None)
+                    if vals and vals <= {0, 1}:
+                        continue
+                    bad.append("%s instantiated with %s" % (name, sorted(map(str, vals))))
+                else:
+                    bad.append("%s passes a run-time offset (%s)" % (name, b.where(bb)))
+    return (n >= 3 and not bad), "%d call sites of HashChain::iterate, offsets in {0,1}" % n if not bad else "; ".join(bad[:2])
+
+
+def ob_depth_variants(F, parent, fn, sites):
+    # new_depth_estimator(x): x is the parameter of CandidateInfo::new; every caller passes a non-None variant aggregate
+    bad, n = [], 0
+    mid = P + "complevel_estimator::CandidateInfo::new"
+    for name, b in F.bodies.items():
+        for bb, t in b.calls():
+            cd = strip_generics(callee_def(t))
+            if cd == fn and name != mid:
+                bad.append("new_depth_estimator called from %s" % name)
+            if cd == mid:
+                n += 1
+                o = flow.origin(b, t["args"][0])
+                vs = {r.get("vname") for _, _, r in o.exprs if r["k"] == "agg"}
+                if o.args or o.calls or o.consts or o.unknown or not vs or "None" in vs or any(r["k"] != "agg" for _, _, r in o.exprs):
+                    bad.append("%s passes %s" % (name, sorted(map(str, vs)) or "a run-time value"))
+    mb = F.bodies.get(mid)
+    if mb is None:
+        return False, "CandidateInfo::new not found"
+    fwd = [t for bb, t in mb.calls() if strip_generics(callee_def(t)) == fn]
+    okf = len(fwd) == 1 and flow.origin(mb, fwd[0]["args"][0]).args == {1}
+    return (n >= 5 and not bad and okf), "%d constructions of CandidateInfo, all with a concrete hash algorithm" % n if not bad else "; ".join(bad[:2])
+
+
+def ob_tree_code(F, parent, fn, sites):
+    a = F.adts.get(P + "huffman_encoding::TreeCodeType")
+    code = [v["discr"] for v in a["variants"] if v["name"] == "Code"][0] if a else None
+    bad, n = [], 0
+    for name, b in F.bodies.items():
+        for bb, t in b.calls():
+            if strip_generics(callee_def(t)) != fn:
+                continue
+            n += 1
+            arg = t["args"][0]
+            o = flow.origin(b, arg)
+            aggs = [r for _, _, r in o.exprs if r["k"] == "agg"]
+            if aggs and len(aggs) == len(o.exprs) and not (o.args or o.calls or o.consts or o.unknown):
+                if all(r.get("vname") != "Code" for r in aggs):
+                    continue
+                bad.append("%s passes Code" % name)
+                continue
+            # dominated by a match arm that excludes Code
+            root = flow.describe(b, arg)
+            ok = False
+            for sb in b.normal_blocks():
+                st = b.term(sb)
+                if st["k"] != "switch":
+                    continue
+                d = flow.describe(b, st["d"])
+                if d != "discr(%s)" % root:
+                    continue
+                listed = {v for v, _ in st["targets"]}
+                for v, tgt in st["targets"]:
+                    if v != code and b.edge_dominates(sb, tgt, bb):
+                        ok = True
+                if code in listed and b.edge_dominates(sb, st["otherwise"], bb):
+                    ok = True
+            if not ok:
+                bad.append("%s (%s): argument not provably != Code" % (name, b.where(bb)))
+    return (n >= 2 and not bad), "%d call sites, argument is never TreeCodeType::Code" % n if not bad else "; ".join(bad[:2])
+
+
+def ob_none_holder(F, parent, fn, sites):
+    # HashAlgorithm::None aggregates in non-test code: only in the Store/HuffOnly early return of the estimator and in Default/read
+    where = []
+    for name, b in F.bodies.items():
+        for bb in b.normal_blocks():
+            for s in b.stmts(bb):
+                if s["k"] == "assign" and s["r"]["k"] == "agg" and s["r"].get("adt") == P + "hash_algorithm::HashAlgorithm" and s["r"].get("vname") == "None":
+                    where.append(name)
+    allowed = {P + "preflate_parameter_estimator::estimate_preflate_parameters", P + "preflate_parameter_estimator::PreflateParameters::read",
+               "<" + P + "hash_algorithm::HashAlgorithm as std::default::Default>::default"}
+    extra = sorted(set(where) - allowed)
+    # in the estimator the aggregate must sit behind the Store/HuffOnly test
+    eb = F.bodies.get(P + "preflate_parameter_estimator::estimate_preflate_parameters")
+    guarded = False
+    if eb is not None:
+        for bb in eb.normal_blocks():
+            for s in eb.stmts(bb):
+                if s["k"] == "assign" and s["r"]["k"] == "agg" and s["r"].get("vname") == "None" and s["r"].get("adt", "").endswith("HashAlgorithm"):
+                    # dominated by a comparison call on the strategy
+                    doms = eb.dominators().get(bb, set())
+                    cmp_calls = [x for x in doms if eb.term(x)["k"] == "call" and strip_generics(callee_def(eb.term(x))).endswith("PartialEq::eq")
+                                 and "PreflateStrategy" in eb.term(x)["callee"].get("inst", "")]
+                    guarded = len(cmp_calls) >= 1
+    return (not extra and guarded), "HashAlgorithm::None is constructed only in %s; estimator site guarded by the strategy test: %s" % (sorted(set(where)), guarded) if not extra else "HashAlgorithm::None also constructed in %s" % extra
+
+
+def ob_candidates_nonempty(F, parent, fn, sites):
+    b = F.bodies[fn]
+    # the unwrap block is dominated by the false edge of `candidates.is_empty()` whose true edge returns Err
+    for s in sites:
+        ok = False
+        for bb, t in b.calls():
+            if strip_generics(callee_def(t)).endswith("Vec::is_empty") and "candidates" in flow.describe(b, t["args"][0]):
+                sw = t["t"]
+                st = b.term(sw)
+                if st["k"] == "switch":
+                    f = [x for v, x in st["targets"] if v == 0]
+                    if f and b.edge_dominates(sw, f[0], s["bb"]):
+                        ok = True
+        if not ok:
+            return False, "min_by().unwrap() at %s is not dominated by the non-empty edge of candidates.is_empty()" % s["where"]
+    return True, "unwrap is dominated by `!candidates.is_empty()`"
+
+
+def ob_calc_codes_total(F, parent, fn, sites):
+    b = F.bodies[fn]
+    bad = []
+    for s in sites:
+        o = flow.origin(b, b.term(s["bb"])["args"][0])
+        names = [strip_generics(callee_def(t)) for _, t in o.calls]
+        if names != [P + "huffman_helper::calc_huffman_codes"]:
+            bad.append(str(names))
+    # calc_huffman_codes: every Err return is ...? accept when the only failure is an explicit err on invalid lengths
+    return not bad, "unwrap applies to calc_huffman_codes(fixed tables)" if not bad else "unwrap on %s" % bad
+
+
+def ob_heap_nonempty(F, parent, fn, sites):
+    b = F.bodies[fn]
+    for s in sites:
+        o = flow.origin(b, b.term(s["bb"])["args"][0])
+        names = [strip_generics(callee_def(t)) for _, t in o.calls]
+        if not all(n.endswith("::pop") for n in names) or not names:
+            return False, "unwrap on %s" % names
+    # an early return on heap.len() <= 1 exists
+    ok = any(b.term(bb)["k"] == "switch" and re.search(r"^L[et]\(len\(.*\), K[12]\)$|^G[et]\(len\(.*\), K[01]\)$", flow.describe(b, b.term(bb)["d"]))
+             for bb in b.normal_blocks())
+    return ok, "pop().unwrap() with a heap-size test in the function" if ok else "no heap-size test found"
+
+
+def ob_read_byte(F, parent, fn, sites):
+    n, bad = 0, []
+    for name, b in F.bodies.items():
+        for bb, t in b.calls():
+            if strip_generics(callee_def(t)) == strip_generics(fn):
+                n += 1
+                flushes = [x for x, t2 in b.calls() if strip_generics(callee_def(t2)).endswith("BitReader::flush_buffer_to_byte_boundary")]
+                if not any(b.dominates(x, bb) for x in flushes):
+                    bad.append("%s (%s)" % (name, b.where(bb)))
+    return (n >= 1 and not bad), "%d call sites of read_byte, each dominated by flush_buffer_to_byte_boundary" % n if not bad else "not after a flush: %s" % bad[:2]
+
+
+def ob_codes_read(F, parent, fn, sites):
+    rb = F.bodies.get(P + "huffman_encoding::HuffmanOriginalEncoding::read")
+    if rb is None:
+        return False, "HuffmanOriginalEncoding::read not found"
+    oks = [bb for bb in rb.normal_blocks() for s in rb.stmts(bb) if s["k"] == "assign" and s["p"]["l"] == 0 and s["r"]["k"] == "agg" and s["r"].get("vname") == "Ok"]
+    for sb in rb.normal_blocks():
+        st = rb.term(sb)
+        if st["k"] == "switch" and re.search(r"^Ne\(.*codes_read.*\)$|^Ne\(var\(codes_read\)", flow.describe(rb, st["d"])):
+            f = [x for v, x in st["targets"] if v == 0]
+            if f and oks and all(rb.edge_dominates(sb, f[0], ob) for ob in oks):
+                return True, "Ok(HuffmanOriginalEncoding) is dominated by codes_read == hlit + hdist"
+    return False, "no dominating `codes_read != c_lengths_combined` test found before Ok"
+
+
+def ob_update_length(F, parent, fn, sites):
+    from . import ub
+    return ub.update_length_bound(F, parent)
+
+
+def ob_slice4(F, parent, fn, sites):
+    b = F.bodies[fn]
+    for s in sites:
+        t = b.term(s["bb"])
+        ty = b.local_ty(op_place(t["args"][0])["l"])
+        if "Result<[u8; 4]" not in ty:
+            return False, "unwrap on %s" % ty
+        d = flow.describe(b, t["args"][0])
+        if not re.search(r"try_into\(index\(.*(RangeTo\{K4\}|RangeFrom\{Sub\(len\(.*\), K4\)(\.0)?\})", d):
+            return False, "source is not a 4-byte slice ([..4] or [len-4..]): %s" % d
+    return True, "<&[u8] as TryInto<[u8;4]>> on a slice of exactly 4 bytes"
+
+
+def ob_prefix_compare(F, parent, fn, sites):
+    from . import guard
+    return guard.prefix_compare_args(F)
+
+
+OBLIGATIONS = {
+    "cabac-in-memory": ob_cabac_in_memory, "vp8-ctor-in-memory": ob_vp8_ctor, "checksum-dead": ob_checksum_dead,
+    "iterate-offset": ob_iterate_offset, "depth-estimator-variants": ob_depth_variants, "tree-code-not-Code": ob_tree_code,
+    "none-holder-no-references": ob_none_holder, "X2:candidates-nonempty": ob_candidates_nonempty,
+    "calc-huffman-codes-total": ob_calc_codes_total, "heap-nonempty": ob_heap_nonempty, "read-byte-after-flush": ob_read_byte,
+    "X2:codes-read": ob_codes_read, "update-length": ob_update_length, "slice4-to-array4": ob_slice4,
+    "prefix-compare-args": ob_prefix_compare,
+}
+
+
+def check_sites(F, rep, rule, entries, floor):
+    roots = F.roots_for(entries)
+    sites, parent, defs = S.reachable_sites(F, roots)
+    rep.stats.setdefault("site", {})[rule] = {"local_functions_reachable": len(defs), "explicit_failure_sites": len(sites)}
+    rep.floor(rule, "explicit-failure-sites", len(sites), floor)
+    groups = {}
+    for (fn, kind, ordn), s in sites.items():
+        groups.setdefault((fn, kind), []).append(s)
+    for (fn, kind), ss in sorted(groups.items()):
+        short = fn.replace(P, "")
+        row = T.ROWS.get((short, kind))
+        key = "%s|%s" % (short, kind)
+        where = ss[0]["where"]
+        if row is None:
+            rep.add(rule, "unreviewed:" + key, False, where,
+                    "explicit failure construct (%d site(s)) on a path that digests untrusted bytes is not in the reviewed table; reachable via %s" % (
+                        len(ss), F.witness(parent, ss[0]["witness_inst"])))
+            continue
+        cls, obname, why = row
+        if cls in ("invariant",):
+            rep.add(rule, "reviewed:" + key, True, where, "invariant (no structural obligation): " + why)
+            continue
+        if cls == "discharged-by":
+            rep.add(rule, "reviewed:" + key, True, where, "discharged by %s: %s" % (obname, why))
+            continue
+        if cls == "ub" and obname == "C08:P3":
+            rep.add(rule, "reviewed:" + key, True, where, "decided by C08/P3 (upper-bound inference), reported there: " + why)
+            continue
+        ob = OBLIGATIONS.get(obname)
+        if ob is None:
+            rep.add(rule, "reviewed:" + key, False, where, "table row names an unknown obligation %r" % obname)
+            continue
+        try:
+            ok, detail = ob(F, parent, fn, ss)
+        except Exception as e:  # fail closed, but say why
+            ok, detail = False, "UNRECOGNISED-IDIOM: obligation %s raised %s: %s" % (obname, type(e).__name__, e)
+        rep.add(rule, "%s:%s" % (cls, key), ok, where, "%s — %s" % (why, detail))
+    # stale rows are harmless (the construct disappeared) but are reported in the notes
+    stale = [k for k in T.ROWS if (P + k[0], k[1]) not in groups]
+    rep.stats["site"][rule]["table_rows_unused_here"] = len(stale)
 
 
 def a6(ctx, rep):
-    return
+    F = ctx.lib
+    check_sites(F, rep, "A6", [PC + "expand_zlib_chunks", PC + "recreated_zlib_chunks"], 40)
